@@ -12,12 +12,16 @@ CHECKS = {
          "The step relation is written from the statement (quota formulas, >=, transfer value, elimination tie rule); the code's rounds, over all inputs in the bound and all random branches, must be exactly such steps.", "5 C02"),
  "C07": ("TLC invariant DPC (all candidate subsets) on the bounded Droop model + the same invariant evaluated on every validated trace of the real STV/IRV",
          "An oracle that shares nothing with the implementation: decided exhaustively for the design in the bound, transferred to the code by trace validation and evaluated on planted-coalition profiles.", "5 C07"),
+ "C09": ("TLC trace validation: after the recorded rounds, every query answer of a seeded random history must equal the answer Election.tla's recorded rounds imply (QueryClause), purity via snapshots",
+         "Histories (with repetition, negative and out-of-range indices) are replayed on finished elections of every rule; TLC recomputes each answer from the rounds it has itself validated.", "5 C09"),
  "C10": ("TLC: probability-labelled actions (RandomOnlyWithTiebreak, ProbSum) + trace validation of recorded tiebreaks with exact conditional probabilities from exhaustive exploration of the code's random draws",
          "Decides that the code's outcome branches only where a tiebreak is recorded and that recorded resolutions are legal orders of genuinely tied sets.", "5 C10"),
  "C03": ("TLC: MC_Transfers (transfer relations stand-alone) + call-level trace validation of fractional_transfer/random_transfer with exact outcome probabilities + Conservation monitor on validated STV traces",
          "Decides the per-ranking transfer weights, sub-collection size and uniformity (hypergeometric label over all outcomes of random.sample) and round-by-round conservation.", "5 C03"),
  "C04": ("TLC: MC_Scoring invariants + call-level trace validation of the scoring utilities (exact equality with Scoring.tla) + trace validation of Plurality/SNTV/Borda elections",
          "Exact rational oracle written from the statement; equality (not closeness) with the code's scores on all tied/partial shapes in the bound and sampled larger ones.", "5 C04"),
+ "C05": ("TLC: MC_Rating invariants + call-level trace validation of GeneralRating/Rating/Limited/Cumulative/Approval/BlocPlurality constructions against Rating.tla",
+         "Acceptance decided by the four stated conditions on every ballot; totals, winners, recorded tiebreak and error class compared exactly, incl. boundary (== L, == k) and smallest-step violations on any ballot position.", "5 C05"),
  "C06": ("TLC: MC_Pairwise (declarative Smith tiers have the stated properties and equal the reach-count grouping) + call-level trace validation of PairwiseComparisonGraph + DominatingSets/CondoBorda election traces",
          "Declarative tiers decided on the bounded model; the code's margins, tiers and Condorcet answers compared exactly on exhaustive small and tournament-directed profiles.", "5 C06"),
  "C17": ("exact law of the code's random choices (all outcomes of a scripted RNG enumerated) validated by TLC against probability-labelled actions; ProbSum on the bounded model",
